@@ -68,7 +68,10 @@ type chunkPayloadData struct {
 	missIndicator uint32
 
 	// Partial-reliability parameters used only by sender
-	since        time.Time
+	since time.Time
+	// firstSent is the time of the first transmission (since is overwritten by every
+	// retransmission); the timed partial-reliability lifetime counts from it.
+	firstSent    time.Time
 	nSent        uint32 // number of transmission made for this chunk
 	_abandoned   bool
 	_allInflight bool // valid only with the first fragment
